@@ -977,16 +977,21 @@ regp_process(RegP *p, const RPMaybeFrame *mf)
         /* In read-requests, the frame doesn't carry any payload. We'll use the
          * block's memory after the header in order to store the return data
          * from the memory implementation. This removes the requirement of
-         * allocating again, and eliminates some block memory waste. */
+         * allocating again, and eliminates some block memory waste. The
+         * request's header stays in front of that area, so its size is not
+         * available for the answer. */
+        const size_t hdrsize = (size_t)((unsigned char*)mf->frame->payload.data
+                                      - (unsigned char*)mf->frame->raw.memory);
+        const size_t room = p->alloc->blocksize - sizeof(RPFrame) - hdrsize;
         if (p->memory.type == RP_MEMTYPE_16) {
-            const size_t maxsize = (p->alloc->blocksize - sizeof(RPFrame)) / 2;
+            const size_t maxsize = room / 2;
             if (maxsize < blocksize) {
                 ba.status = RP_RESP_ETXOVERFLOW;
             } else {
                 ba = p->memory.access.m16.read(addr, blocksize, buf);
             }
         } else {
-            const size_t maxsize = p->alloc->blocksize - sizeof(RPFrame);
+            const size_t maxsize = room;
             if (maxsize < blocksize) {
                 ba.status = RP_RESP_ETXOVERFLOW;
             } else {
